@@ -246,7 +246,8 @@ Lemma flightLoop_ok fuel : forall c plens i off rem k d,
   nth_error (flightLoop fuel c plens i i off rem) k = Some d -> dg_ok c (i + Z.of_nat k) d.
 Proof.
   induction fuel as [|f IH]; intros c plens i off rem k d H; cbn [flightLoop] in H.
-  - destruct k; discriminate.
+  - destruct (rem <=? 0); [destruct k; discriminate|].
+    destruct k as [|[|k]]; cbn in H; try discriminate. inversion H. exact I.
   - set (plan := planFor (c_plans c) i) in *.
     set (m := initialBudget (hdrOf c i) off (c_maxSize c) plan (c_bk c) i - hdrOf c i) in *.
     pose proof (popLoop_nil 4 off rem m) as Hnil.
@@ -300,10 +301,10 @@ Lemma flight_ok c helloLen plens k d :
   nth_error (flight c helloLen plens) k = Some d -> dg_ok c (Z.of_nat k) d.
 Proof.
   unfold flight. intros H.
-  assert (Hloop : forall l, nth_error (flightLoop maxDatagrams c l 0 0 0 helloLen) k = Some d -> dg_ok c (Z.of_nat k) d).
+  assert (Hloop : forall l, nth_error (flightLoop (flightFuel helloLen) c l 0 0 0 helloLen) k = Some d -> dg_ok c (Z.of_nat k) d).
   { intros l Hl. apply flightLoop_ok in Hl. exact Hl. }
   destruct (c_bk c) eqn:Hbk; try (apply (Hloop plens); exact H).
-  apply nth_error_firstn in H. unfold flightPlanned in H.
+  unfold flightPlanned in H.
   destruct (helloLen <=? 0); [destruct k; discriminate|].
   destruct plens as [|p0 r].
   { destruct k as [|[|k]]; cbn in H; try discriminate. inversion H. exact I. }
@@ -471,7 +472,7 @@ Lemma flightLoop_crypto_bound fuel : forall c plens i off rem k rfs pn pnLen h f
 Proof.
   induction fuel as [|f IH]; intros c plens i off rem k rfs pn pnLen h fs lf pk dl ix rp Hbk Hne Hfit Hi Hoff H;
     cbn [flightLoop] in H.
-  - destruct k; discriminate.
+  - destruct (rem <=? 0); destruct k as [|[|k]]; discriminate.
   - destruct (rfFor_some rfs i Hne) as [rf Hrf].
     destruct (Hfit i off rf Hi Hoff Hrf) as (Hcl & Hlen & Hpad & Hn & Hb). cbv zeta in Hn, Hb.
     set (n := maxCryptoData rf off) in *.
@@ -522,5 +523,58 @@ Lemma flight_datagram_crypto_bound c helloLen plens k rfs pn pnLen h fs lf pk dl
   exists rf o n, rfFor rfs (Z.of_nat k) = Some rf /\ fs = [(o, n)] /\ 0 <= o /\ 0 < n <= maxCryptoData rf o.
 Proof.
   intros Hbk Hne Hfit H. unfold flight in H. rewrite Hbk in H.
-  exact (flightLoop_crypto_bound maxDatagrams c plens 0 0 helloLen k rfs pn pnLen h fs lf pk dl ix rp Hbk Hne Hfit ltac:(lia) ltac:(lia) H).
+  exact (flightLoop_crypto_bound (flightFuel helloLen) c plens 0 0 helloLen k rfs pn pnLen h fs lf pk dl ix rp Hbk Hne Hfit ltac:(lia) ltac:(lia) H).
+Qed.
+
+
+(** * the model's fuel never runs out: the flight is as long as the code makes it *)
+
+Lemma popLoop_rem fuel : forall off rem m fs off' rem',
+  popLoop fuel off rem m = (fs, off', rem') -> rem' <= rem /\ (fs <> [] -> rem' < rem) /\ off' = off + (rem - rem').
+Proof.
+  induction fuel as [|f IH]; intros off rem m fs off' rem' H.
+  - cbn in H. inversion H; subst. repeat split; try lia. congruence.
+  - rewrite popLoop_S in H. destruct (rem <=? 0); [inversion H; subst; repeat split; try lia; congruence|].
+    cbv zeta in H. destruct (Z.leb_spec (Z.min (maxDataLen off m) rem) 0) as [Hn|Hn];
+      [inversion H; subst; repeat split; try lia; congruence|].
+    set (n := Z.min (maxDataLen off m) rem) in *.
+    destruct (popLoop f (off + n) (rem - n) (m - cframeLen off n)) as [[fs1 o1] r1] eqn:E.
+    destruct (IH _ _ _ _ _ _ E) as (H1 & _ & H3). inversion H; subst. repeat split; lia.
+Qed.
+
+(** out-of-fuel (DGErr 98) never appears when the fuel exceeds the queued bytes: every
+    datagram takes at least one byte off the stream *)
+Lemma flightLoop_no_fuel_error fuel : forall c plens i idx off rem,
+  rem < Z.of_nat fuel -> ~ In (DGErr 98) (flightLoop fuel c plens i idx off rem).
+Proof.
+  induction fuel as [|f IH]; intros c plens i idx off rem Hf Hin; cbn [flightLoop] in Hin.
+  - destruct (Z.leb_spec rem 0); [destruct Hin|lia].
+  - destruct (popLoop 4 off rem _) as [[frames off'] rem'] eqn:EP.
+    destruct (popLoop_rem _ _ _ _ _ _ _ EP) as (_ & Hlt & _).
+    destruct frames as [|fr frs]; [destruct Hin|].
+    specialize (Hlt ltac:(discriminate)).
+    match type of Hin with context [if ?b then _ else _] => destruct b end;
+      [destruct Hin as [E|[]]; discriminate|].
+    match type of Hin with context [appendInitial ?p ?h ?l ?pl ?u] => destruct (appendInitial p h l pl u) end;
+      [destruct Hin as [E|[]]; discriminate|].
+    destruct Hin as [E|Hin]; [discriminate|]. eapply IH; [|exact Hin]. lia.
+Qed.
+
+Lemma plannedLoop_no_fuel_error c : forall plens i, ~ In (DGErr 98) (plannedLoop c plens i).
+Proof.
+  induction plens as [|p r IH]; intros i Hin; cbn [plannedLoop] in Hin; [destruct Hin|].
+  destruct (appendInitial _ _ _ _ _); [destruct Hin as [E|[]]; discriminate|].
+  destruct Hin as [E|Hin]; [discriminate|]. eapply IH; exact Hin.
+Qed.
+
+Lemma flight_fuel_sufficient c helloLen plens : ~ In (DGErr 98) (flight c helloLen plens).
+Proof.
+  unfold flight.
+  assert (Hl : forall l, ~ In (DGErr 98) (flightLoop (flightFuel helloLen) c l 0 0 0 helloLen)).
+  { intros l. apply flightLoop_no_fuel_error. unfold flightFuel. lia. }
+  destruct (c_bk c); try apply Hl.
+  unfold flightPlanned. destruct (helloLen <=? 0); [intros []|].
+  destruct plens as [|p0 r]; [intros [E|[]]; discriminate|].
+  destruct (p0 <? 0); [intros [E|[]]; discriminate|].
+  destruct (sizeRuleOk _ _ _ _); [apply plannedLoop_no_fuel_error|intros [E|[]]; discriminate].
 Qed.
